@@ -286,7 +286,12 @@ func checkC04(e *Env) {
 	nh := e.pick(24, 300)
 	parallel(nh, e.Workers, func(h int) {
 		g := &seqGen{e: e, r: rng.New(e.Seed, "C04-hist-"+itoa(h)), bufs: map[int][]byte{}}
-		g.memoHunt(3)
+		if h%6 == 5 {
+			// many distinct pairs that need normalising, then the same ones again (bounded caches)
+			g.cacheWrap(3, []int{40, 150}[(h/6)%2])
+		} else {
+			g.memoHunt(3)
+		}
 		// odd histories hold the seed calls only, even ones also the other functions' calls
 		// (validations that fail in every way, generators) in between
 		var ops []plan.Op
